@@ -30,7 +30,7 @@ REQUIRED = ['steps_law_checked', 'scan_thresholds_checked', 'selections_checked'
 def gen_cases(tier, seed):
     q = tier == 'quick'
     out = []
-    n = 1800 if q else 150000
+    n = 5000 if q else 150000
     for k in range(n):
         cs = case_seed(seed, PID, k)
         r = random.Random(cs)
